@@ -257,18 +257,18 @@ variable {β σ : Type}
 
 /-- derived `eq` of sequences (and of stacks: `stackEq` is the same code) is an equivalence if the
 element `eq` is -/
-theorem eq_equiv_seq {f : β → β → R Bool} {g : β → β → Bool} (hp : PureEq f g) (hg : BEquiv g) :
+theorem derived_eq_equiv_seq {f : β → β → R Bool} {g : β → β → Bool} (hp : PureEq f g) (hg : BEquiv g) :
     PureEq (seqEq f) (seqEqB g) ∧ PureEq (stackEq f) (seqEqB g) ∧ BEquiv (seqEqB g) :=
   ⟨seqEq_pure hp, seqEq_pure hp, seqEqB_equiv hg⟩
 
 /-- derived `eq` of optionals is an equivalence if the payload `eq` is -/
-theorem eq_equiv_opt {f : β → β → R Bool} {g : β → β → Bool} (hp : PureEq f g) (hg : BEquiv g) :
+theorem derived_eq_equiv_opt {f : β → β → R Bool} {g : β → β → Bool} (hp : PureEq f g) (hg : BEquiv g) :
     PureEq (optEq f) (optEqB g) ∧ BEquiv (optEqB g) :=
   ⟨optEq_pure hp, optEqB_equiv hg⟩
 
 /-- derived `eq` of tuples (one component relation per position) is an equivalence on the tuples of
 that type (lists with as many components as there are positions) -/
-theorem eq_equiv_tuple {fs : List (β → β → R Bool)} {gs : List (β → β → Bool)}
+theorem derived_eq_equiv_tuple {fs : List (β → β → R Bool)} {gs : List (β → β → Bool)}
     (hp : List.Forall₂ PureEq fs gs) (hg : ∀ g ∈ gs, BEquiv g) :
     (∀ t0 t1, tupleEq fs t0 t1 = .ok (all2s gs t0 t1)) ∧
     (∀ t, all2s gs t t = true) ∧
